@@ -370,6 +370,19 @@ struct UpsertFn2 {
   Fnk f;
   void operator()(Val &v, libcuckoo::UpsertContext c) { fn_apply(f, v, c == libcuckoo::UpsertContext::NEWLY_INSERTED); }
 };
+// functors callable in BOTH shapes: they accept an UpsertContext, so the documented behaviour is that of the
+// two-argument form (invoked after a new insertion too, with the matching context); the one-argument overload must
+// never be chosen
+struct UpsertFnBoth {
+  Fnk f;
+  void operator()(Val &v) { g_errors.push_back("the context-less overload of a functor that accepts an UpsertContext was invoked"); fn_apply(f, v, false); }
+  void operator()(Val &v, libcuckoo::UpsertContext c) { fn_apply(f, v, c == libcuckoo::UpsertContext::NEWLY_INSERTED); }
+};
+struct UpraseFnBoth {
+  Fnk f;
+  bool operator()(Val &v) { g_errors.push_back("the context-less overload of a functor that accepts an UpsertContext was invoked"); return fn_apply(f, v, false); }
+  bool operator()(Val &v, libcuckoo::UpsertContext c) { return fn_apply(f, v, c == libcuckoo::UpsertContext::NEWLY_INSERTED); }
+};
 struct UpraseFn1 { Fnk f; bool operator()(Val &v) { return fn_apply(f, v, false); } };
 struct UpraseFn2 {
   Fnk f;
@@ -549,6 +562,7 @@ static std::string exec_op(int a, const std::vector<std::string> &tk) {
       bool res;
       { Args ar(U(tk[2]), I(tk[5]));
         if (g_lvalue_args) res = (tk[4] == "1") ? t.upsert(ar.k, UpsertFn2{f}, ar.v) : t.upsert(ar.k, UpsertFn1{f}, ar.v);
+        else if (tk[4] == "1" && U(tk[2]) % 2 == 1) res = t.upsert(std::move(ar.k), UpsertFnBoth{f}, std::move(ar.v));
         else res = (tk[4] == "1") ? t.upsert(std::move(ar.k), UpsertFn2{f}, std::move(ar.v))
                              : t.upsert(std::move(ar.k), UpsertFn1{f}, std::move(ar.v)); }
       r = B(res) + g_fnlog + g_consumed;
@@ -557,6 +571,7 @@ static std::string exec_op(int a, const std::vector<std::string> &tk) {
       bool res;
       { Args ar(U(tk[2]), I(tk[5]));
         if (g_lvalue_args) res = (tk[4] == "1") ? t.uprase_fn(ar.k, UpraseFn2{f}, ar.v) : t.uprase_fn(ar.k, UpraseFn1{f}, ar.v);
+        else if (tk[4] == "1" && U(tk[2]) % 2 == 1) res = t.uprase_fn(std::move(ar.k), UpraseFnBoth{f}, std::move(ar.v));
         else res = (tk[4] == "1") ? t.uprase_fn(std::move(ar.k), UpraseFn2{f}, std::move(ar.v))
                              : t.uprase_fn(std::move(ar.k), UpraseFn1{f}, std::move(ar.v)); }
       r = B(res) + g_fnlog + g_consumed;
@@ -567,12 +582,14 @@ static std::string exec_op(int a, const std::vector<std::string> &tk) {
       r = B(t.insert_or_assign(mkkey(U(tk[2])), mkval(I(tk[3]))));
     } else if (o == "upsert") {
       Fnk f = parse_fn(tk[3]);
-      bool res = (tk[4] == "1") ? t.upsert(mkkey(U(tk[2])), UpsertFn2{f}, mkval(I(tk[5])))
+      bool res = (tk[4] == "1" && U(tk[2]) % 2 == 1) ? t.upsert(mkkey(U(tk[2])), UpsertFnBoth{f}, mkval(I(tk[5])))
+                 : (tk[4] == "1") ? t.upsert(mkkey(U(tk[2])), UpsertFn2{f}, mkval(I(tk[5])))
                                 : t.upsert(mkkey(U(tk[2])), UpsertFn1{f}, mkval(I(tk[5])));
       r = B(res) + g_fnlog;
     } else if (o == "uprase") {
       Fnk f = parse_fn(tk[3]);
-      bool res = (tk[4] == "1") ? t.uprase_fn(mkkey(U(tk[2])), UpraseFn2{f}, mkval(I(tk[5])))
+      bool res = (tk[4] == "1" && U(tk[2]) % 2 == 1) ? t.uprase_fn(mkkey(U(tk[2])), UpraseFnBoth{f}, mkval(I(tk[5])))
+                 : (tk[4] == "1") ? t.uprase_fn(mkkey(U(tk[2])), UpraseFn2{f}, mkval(I(tk[5])))
                                 : t.uprase_fn(mkkey(U(tk[2])), UpraseFn1{f}, mkval(I(tk[5])));
       r = B(res) + g_fnlog;
 #endif
